@@ -41,6 +41,7 @@ type vfProfile struct {
 
 var vfTimes = []uint16{0, 1, 1, 2, 2, 3, 3, 4, 5, 7, 8, 9, 10}
 var vfBigTimes = []uint16{15, 16, 17, 30, 36, 37, 38, 60, 120, 300, 3600, 65535}
+var vfBigMinutes = []uint16{1092, 1093, 3277, 16384, 32768, 49152, 65535}
 var vfCounts = []uint16{0, 0, 0, 1, 1, 2, 3, 5, 0xffff}
 var vfRcounts = []uint8{0, 0, 1, 2, 3, 0xff}
 
@@ -151,6 +152,7 @@ func (g *vfGen) lockOp() vfOp {
 		op.Expried = uint16(r.Range(1, 9))
 	}
 	// flags
+	bigMinuteTimeout := false
 	if r.Chance(6) {
 		op.TFlag |= protocol.TIMEOUT_FLAG_MINUTE_TIME
 		if op.Timeout > 300 {
@@ -158,6 +160,12 @@ func (g *vfGen) lockOp() vfOp {
 		}
 		if !g.big && op.Timeout > 3 {
 			op.Timeout = uint16(r.Range(1, 3))
+		}
+		if g.big && r.Chance(30) {
+			// the whole 16-bit range in minutes (60*T does not fit 16 bits from 1093 on); such a wait never
+			// reaches its deadline in a script, but an earlier TIMEOUT is seen by the lower bound
+			op.Timeout = vfBigMinutes[r.Intn(len(vfBigMinutes))]
+			bigMinuteTimeout = true
 		}
 	}
 	if r.Chance(6) {
@@ -168,6 +176,9 @@ func (g *vfGen) lockOp() vfOp {
 		if !g.big && op.Expried > 3 {
 			op.Expried = uint16(r.Range(1, 3))
 		}
+		if g.big && r.Chance(30) {
+			op.Expried = vfBigMinutes[r.Intn(len(vfBigMinutes))]
+		}
 	}
 	if r.Chance(g.p.PrioPct) {
 		op.TFlag |= protocol.TIMEOUT_FLAG_RCOUNT_IS_PRIORITY
@@ -175,6 +186,10 @@ func (g *vfGen) lockOp() vfOp {
 	}
 	if !g.p.NoWWU && r.Chance(2) {
 		op.TFlag |= protocol.TIMEOUT_FLAG_LOCK_WAIT_WHEN_UNLOCK
+		if bigMinuteTimeout {
+			// a wait-when-unlocked request on a free key only ends by its time-out: keep the drain phase short
+			op.Timeout = uint16(r.Range(1, 300))
+		}
 	}
 	if r.Chance(4) {
 		op.EFlag |= protocol.EXPRIED_FLAG_UNLIMITED_EXPRIED_TIME
